@@ -490,7 +490,7 @@ type v35Side struct {
 	cur      *v35Read          // the read record of the request stream in flight (server role)
 	rng      *rand.Rand        // read sizes for the consumer in flight
 	peerBidi chan *quic.Stream // client role: request streams opened by the implementation
-	wg       sync.WaitGroup
+	wg       verifrt.WG
 }
 
 // consume reads a body to its end with PRNG buffer sizes.
